@@ -216,7 +216,7 @@ class C15(Prop):
         "markFragments_spec", "reverseComplement_spec", "reverseComplement_rejects", "addComment_addGF_spec",
         "simple_pk_roundtrip", "ct2simplewuss_total", "ct2simplewuss_ok_of_few_pk", "wuss_ct_simplewuss_ct_total",
         "wuss2ct_iff_class_labelling", "wussReverse_pairs", "reverseComplement_ss_pairs",
-        "columnSubset_ok_of_few_pk", "reasonableRF_cons_shape_partial", "wussNopseudo_pairs", "wussFull_total")]
+        "columnSubset_ok_of_few_pk", "reasonableRF_cons_shape_partial", "wussNopseudo_pairs", "wussFull_total", "flushLeftInserts_inplace", "kh_roundtrip_pairs")]
     claimed = True
     technique = ("Lean 4 proof about an executable hand model of esl_msa.c / esl_wuss.c (in-place compaction loop = filter-by-mask on every aligned field, well-formedness invariants, "
                  "tag-table rebuild of SequenceSubset, mode-conversion and reverse-complement identities over alphabet tables regenerated from the tree, 27-stack WUSS reader = 27 Dyck recognisers, "
@@ -242,15 +242,14 @@ class C15(Prop):
                   "too (simple_pk_roundtrip); hence wuss->ct->wuss->ct and RemoveBrokenBasepairsFromSS are identity-or-documented-failure on EVERY balanced string (wuss_ct_wuss_ct_total, "
                   "removeBroken_total). compaction_pairs_exact + compaction_entry_points: after the repair + compaction of ColumnSubset / MinimGaps / NoGaps (digital DNA/RNA) / MinimGapsText / NoGapsText "
                   "(fix_bps) SS_cons and EVERY per-sequence SS spell exactly the pairs with both columns retained, renumbered by the column map, rows are the filtered original rows, alignment well formed. "
-                  "sequenceSubset_markup_exact: every slot of the subset's GS/GR tables is the slot of the retained sequence of that rank (sparse tags: none stays none). wuss2ct_iff_class_labelling: esl_wuss2ct returns ct IFF ct is a symmetric table and the string a class-nested labelling of it (complete characterisation of the reader); wussReverse_pairs: esl_wuss_reverse mirrors the pair set of every balanced string, hence reverseComplement_ss_pairs for SS_cons and every per-sequence SS; wussNopseudo_pairs (exactly the letter pairs removed) and wussFull_total (esl_wuss_full keeps the pair table of EVERY balanced string, letters included); columnSubset_ok_of_few_pk (repair + compaction cannot fail when every SS line has <= 26 pseudoknotted pairs); esl_msa_ReasonableRF with useconsseq=TRUE modelled (esl_abc_FCount into binary32 counts over degeneracy tables regenerated from the tree, esl_vec_FArgMax) and compared exactly. New specs: markFragments_spec "
+                  "sequenceSubset_markup_exact: every slot of the subset's GS/GR tables is the slot of the retained sequence of that rank (sparse tags: none stays none). wuss2ct_iff_class_labelling: esl_wuss2ct returns ct IFF ct is a symmetric table and the string a class-nested labelling of it (complete characterisation of the reader); wussReverse_pairs: esl_wuss_reverse mirrors the pair set of every balanced string, hence reverseComplement_ss_pairs for SS_cons and every per-sequence SS; kh_roundtrip_pairs (wuss2kh then kh2wuss keeps the pair table), flushLeftInserts_inplace (the in-place two-counter loop of esl_msa_FlushLeftInserts, which the driver now runs, equals the left-to-right model the spec speaks about: b <= a is proved, no longer assumed), wussNopseudo_pairs (exactly the letter pairs removed) and wussFull_total (esl_wuss_full keeps the pair table of EVERY balanced string, letters included); columnSubset_ok_of_few_pk (repair + compaction cannot fail when every SS line has <= 26 pseudoknotted pairs); esl_msa_ReasonableRF with useconsseq=TRUE modelled (esl_abc_FCount into binary32 counts over degeneracy tables regenerated from the tree, esl_vec_FArgMax) and compared exactly. New specs: markFragments_spec "
                   "(span rule of esl_msa_MarkFragments), reverseComplement_spec (field by field, well-formedness kept), addComment_addGF_spec. "
                   "Round 3: columnSubset_msa_sscons_pairs; esl_msa_Compare / CompareMandatory / CompareOptional = eslOK iff the documented fields agree; esl_msa_Hash / CheckUniqueNames; "
                   "esl_msa_Checksum = Jenkins hash of the concatenated rows; ConvertDegen2X / SymConvert / SetDefaultWeights; ReasonableRF (useconsseq=FALSE) shape; esl_sq_Digitize/Textize/"
                   "ReverseComplement/ConvertDegen2X. Round 2: pk_roundtrip (invariant over the rb[]/auxpk lettering loop). "
                   "Remaining: the exact predicate of ct2wuss_ok_iff is the lettering run itself (no closed form: a letter is re-used only past its right bound and letters grow within a batch); "
                   "ReasonableRF: only the shape of the line is a theorem (thresholds / counts are floating point, L0; useconsseq=TRUE in text mode dereferences msa->abc == NULL: caller contract, "
-                  "no caller in easel). Trusted: Lean kernel + propext/Classical.choice/Quot.sound; fidelity of the hand model is checked, not proved, by the differential run; FlushLeftInserts is "
-                  "modelled as an append-only output (b <= a in the C loop); float thresholds of MarkFragments are evaluated by the driver (L0).")
+                  "no caller in easel). Trusted: Lean kernel + propext/Classical.choice/Quot.sound; fidelity of the hand model is checked, not proved, by the differential run; float thresholds of MarkFragments are evaluated by the driver (L0).")
     diverge_is_violation = True
     fault_is_output = True       # faults are classified by monitor() (known finding vs. new)
     trusted_base = ["hand model of esl_msa.c/esl_wuss.c tied by exact field-by-field differential run (h_msaops.c, ASan+UBSan build of the working tree)",
@@ -577,7 +576,7 @@ class C15(Prop):
             elif r < 0.9: ops.append("rbbss ss=%s mask=%s" % (hx(s), self.rand_mask(rng, len(s)) or "-"))
             elif r < 0.94:
                 # a random symmetric pair table, not derived from any string: arbitrary crossings, up to > 26 pseudoknotted pairs
-                m = rng.choice([0, 1, 2, 6, 12, 40, rng.randrange(0, 80)])
+                m = rng.choice([0, 1, 2, 6, 12, 40, rng.randrange(0, 80), rng.randrange(0, 80), min(maxlen, rng.choice([150, 300, 1000, 2000]))])
                 k = rng.choice([0, 1, 2, 3, m // 4, m // 2])
                 pos = list(range(1, m + 1)); rng.shuffle(pos)
                 ct = [0] * (m + 1)
@@ -794,6 +793,11 @@ class C15(Prop):
                 if len(unhx(parts[-1][3:]) or b"") != n: return Failure("monitor", "%s: wrong length" % name)
             elif parts[0:2] == ["einval", "exception"] and self.many_pk_pairs(want): return None
             else: return Failure("monitor", "%s fails (%s) on a symmetric pair table with fewer than 27 pseudoknotted pairs: %s" % (name, " ".join(parts[:2]), v[:120]))
+        elif name == "wuss2kh":
+            if l.startswith("ok ss=") and wuss_pairs(ss) is not None:      # theorem kh_roundtrip_pairs, on the implementation's KH string
+                kh = (unhx(l[6:]) or b"").decode("latin-1")
+                back = kh.replace("<", "\0").replace(">", "<").replace("\0", ">").replace(" ", ".")
+                if wuss_pairs(back) != wuss_pairs(ss): return Failure("monitor", "esl_wuss2kh: the KH string %r, read back, does not spell the pairs of %r" % (kh, ss))
         elif name == "wussrev":
             if l.startswith("ok ss="):
                 r = unhx(l[6:]); a, b = wuss_pairs(ss), wuss_pairs(r); n = len(ss)
